@@ -172,10 +172,11 @@ def actStep (m : Mon) : Act → ActOut
     if s < 0 ∨ s > maxWindow then ⟨{ Mon.init with started := true, dead := true }, none⟩
     else ⟨{ Mon.init with started := true, configured := c, streamInit := s }, none⟩
   | .treset c s =>
-    -- the Transport adds its configured buffer to the RFC default window, and keeps one
+    -- the Transport adds its configured buffer to the RFC default window (never beyond 2^31-1), and keeps one
     -- request without response open on stream 1 (the harness' observer of connection errors)
     if s < 0 ∨ s > maxWindow then ⟨{ Mon.init with started := true, dead := true }, none⟩
-    else ⟨{ Mon.init with started := true, transport := true, configured := c + initialWindowSize,
+    else ⟨{ Mon.init with started := true, transport := true,
+                          configured := (if c + initialWindowSize > maxWindow then maxWindow else c + initialWindowSize),
                           streamInit := s, maxSid := 1,
                           streams := [⟨1, .preHeaders, s, -1, 0, 0, false, false, false⟩] }, none⟩
   | .req sid kind =>
